@@ -22,15 +22,21 @@ MASKS = [CUM.ENCRYPT, CUM.DECRYPT]
 TRACE_FILES = ('kmip/services/server/engine.py',)
 
 
+TEAM_POLICY = {'groups': {'g1': {ot: {op: E.Policy.ALLOW_ALL for op in E.Operation}
+                                 for ot in E.ObjectType}}}
+DIRECTORY = {'alice': ['g1'], 'bob': ['g2'], 'carol': ['g1', 'g2'], 'dave': []}
+
+
 def base_store():
     W.CLOCK.now = W.T0
-    pol = W.default_policies({'open': W.OPEN_POLICY})
+    pol = W.default_policies({'open': W.OPEN_POLICY, 'team': TEAM_POLICY})
     w = W.World(policies=pol)
     w.do((1, 4), W.p_register(W.pie_symmetric(), W.common_attrs(policy='open', names=['k1'],
                                                                sensitive=True) +
                               [W.attr(AT.CRYPTOGRAPHIC_USAGE_MASK, MASKS)]))          # 1 alice
     w.do((1, 4), W.p_activate('1'))
     w.do((1, 4), W.p_create(W.sym_attrs(masks=MASKS, policy='open')), user='bob')       # 2 bob
+    w.do((1, 4), W.p_create(W.sym_attrs(masks=MASKS, policy='team')), user='alice', groups=['g1'])  # 3
     return w
 
 
@@ -68,8 +74,19 @@ HARNESSES = {
                      ('carol', [R((2, 0), lambda: [W.p_get_attribute_list('1')])]),
                      ('dave', [R((1, 1), lambda: [W.p_discover()])])],
 }
+# harnesses whose sessions authenticate through ONE shared SLUGS configuration object (as the
+# sessions of a real KmipServer do), the directory lookups being schedule points: identities and
+# group lists are established outside the engine lock
+SHARED_SLUGS = {
+    'slugs_team_get': [('alice', [R((1, 2), lambda: [W.p_get('3')])]),
+                       ('bob', [R((1, 2), lambda: [W.p_get('3')]), R((1, 2), lambda: [W.p_get('3')])])],
+    'slugs_create_locate': [('alice', [R((1, 2), lambda: [W.p_create(W.sym_attrs(policy='team'))])]),
+                            ('bob', [R((1, 4), lambda: [W.p_locate()]), R((1, 4), lambda: [W.p_locate()])]),
+                            ('carol', [R((2, 0), lambda: [W.p_get('3')])])],
+}
+HARNESSES.update(SHARED_SLUGS)
 QUICK = ['create_create', 'batch_placeholder', 'attribute_policy', 'version_gate',
-         'batch_query_vs_query', 'two_each', 'three_creates']
+         'batch_query_vs_query', 'two_each', 'three_creates', 'slugs_team_get']
 
 _BASE = None
 
@@ -94,6 +111,31 @@ def _encode(threads):
             for user, reqs in threads]
 
 
+def _sessions(w, name, threads):
+    """One session per thread. SHARED_SLUGS harnesses: all sessions get the SAME auth settings
+    list (one SLUGS block, one URL), exactly what KmipServer hands to every session."""
+    if name not in SHARED_SLUGS:
+        return [w.session_for(user) for user, _ in threads]
+    W.SLUGS_DIRECTORY.clear()
+    W.SLUGS_DIRECTORY.update(DIRECTORY)
+    shared = [('auth:slugs', {'enabled': 'True', 'url': 'http://slugs/D=corp'})]
+    out = []
+    for user, _ in threads:
+        conn = W.FakeConnection(W.make_cert((user,), 'client'))
+        out.append(W.session_mod.KmipSession(w.engine, conn, ('127.0.0.1', 1), name='s-%s' % user,
+                                             enable_tls_client_auth=True, auth_settings=shared))
+    return out
+
+
+def _send(sess, data):
+    conn = sess._connection
+    conn.feed(data)
+    n = len(conn.sent)
+    sess._handle_message_loop()
+    assert len(conn.sent) == n + 1
+    return conn.sent[-1]
+
+
 def serial_outcomes(name):
     """All serial orders consistent with each client's order -> outcome."""
     threads = _encode(HARNESSES[name])
@@ -108,9 +150,10 @@ def serial_outcomes(name):
             W.ENTROPY.constant = True
             idx = [0] * len(threads)
             resp = [[] for _ in threads]
+            sessions = _sessions(w, name, threads)
             for t in order:
                 user, reqs = threads[t]
-                data = w.send_bytes(reqs[idx[t]], user=user)
+                data = _send(sessions[t], reqs[idx[t]])
                 resp[t].append(W.Resp(data).key())
                 idx[t] += 1
             outs[(tuple(tuple(r) for r in resp), w.raw_key())] = order
@@ -135,8 +178,10 @@ def run_schedule(name, prefix, line_level):
         eng._data_store.dispose()
         resp = [[] for _ in threads]
         bodies = []
+        sessions = _sessions(w, name, threads)
+        W.SLUGS_HOOK = (lambda url: sch.point('io:slugs')) if name in SHARED_SLUGS else None
         for i, (user, reqs) in enumerate(threads):
-            sess = w.session_for(user)
+            sess = sessions[i]
             sess._engine = S.EngineProxy(eng, sch)
 
             def body(i=i, sess=sess, reqs=reqs):
@@ -169,6 +214,7 @@ def run_schedule(name, prefix, line_level):
         outcome = (tuple(tuple(r) for r in resp), w.raw_key())
         return sch, outcome, problems
     finally:
+        W.SLUGS_HOOK = None
         w.close()
 
 
